@@ -23,7 +23,7 @@ inductive WState
   | at (b : Name) (val : Val)
   | halt
   | err (ctl : Bool) (msg : String)
-  deriving DecidableEq, Repr, Inhabited
+  deriving DecidableEq, Repr, Inhabited, Hashable
 
 /-! ## The original graph -/
 
@@ -207,10 +207,10 @@ def simFuel (G H : Hier) : Nat := 64 * (G.length + 1) * (H.length + 1) + 1024
 def initOrig (G : Hier) (top : Name) : Option Name := findHeadOf (G.level top)
 
 def simNameOK (G H : Hier) (gtop htop : Name) (consume : Bool) : Bool :=
-  simOK (sysOrig G) (sysName H consume) (initOrig G gtop) (initName H htop consume) (simFuel G H)
+  simOKc (sysOrig G) (sysName H consume) (initOrig G gtop) (initName H htop consume) (simFuel G H)
 
 def simRegionOK (G H : Hier) (gtop htop : Name) (consume : Bool) : Bool :=
-  simOK (sysOrig G) (sysRegion H consume) (initOrig G gtop) (initRegion H htop consume)
+  simOKc (sysOrig G) (sysRegion H consume) (initOrig G gtop) (initRegion H htop consume)
     (simFuel G H)
 
 end Scfg
